@@ -227,7 +227,10 @@ def build_ops():
     _op("netlist.libraries=", ["N", ("reorder", "libraries", "L")], _setattr("libraries"), ("_libraries",))
     _op("netlist.top_instance=", ["N", "XD"], _setattr("top_instance"), ("_top_instance", "_is_top_instance", "_references", "_pins"))
     _op("netlist.top_instance=None", ["N"], lambda n: setattr(n, "top_instance", None), ("_top_instance", "_is_top_instance"))
-    _op("netlist.set_top_instance", ["N", "XD"], lambda n, x: n.set_top_instance(x), ("_top_instance",))
+    _op("netlist.set_top_instance", ["N", "XD"], lambda n, x: n.set_top_instance(x), ("_top_instance", "_references"))
+    _op("netlist.set_top_instance.name", ["N", "XD", nm],
+        lambda n, x, name: n.set_top_instance(x) if name is None else n.set_top_instance(x, instance_name=name),
+        ("_top_instance", "_references", "_data"))
     # library
     _op("library.create_definition", ["L", nm], lambda l, name: l.create_definition(name=name), ("_definitions", "_library"))
     _op("library.add_definition", ["L", "D", ("pos",)], lambda l, d, p: l.add_definition(d, p), ("_definitions", "_library"))
